@@ -202,6 +202,16 @@ def _describe(v):
 
 
 @task
+def fixed_width(payload):
+    """R6 on a constant: does `re` accept the text as a look-behind body (one fixed width)?"""
+    try:
+        re.compile("(?<=" + payload["text"] + ")")
+        return True
+    except re.error as e:
+        return "look-behind requires fixed-width pattern" not in str(e)
+
+
+@task
 def call_concrete(payload):
     """a function of the package applied to concrete arguments"""
     from pvc import bex_contract
